@@ -29,3 +29,21 @@ func main() {
 	}
 	c(os.Args[2:])
 }
+
+func readNDJSON(path string) [][]byte {
+	data, err := os.ReadFile(path)
+	if err != nil {
+		fatal("read %s: %v", path, err)
+	}
+	var res [][]byte
+	start := 0
+	for i := 0; i <= len(data); i++ {
+		if i == len(data) || data[i] == '\n' {
+			if i > start {
+				res = append(res, data[start:i])
+			}
+			start = i + 1
+		}
+	}
+	return res
+}
